@@ -730,6 +730,10 @@ func (e *Explorer) Run(fn *ssa.Function, init *State) {
 					if cell := e.P.cellOf(s.Canon(x.X)); cell != nil {
 						if cv, ok := s.Cell[cell]; ok {
 							s.Res[x] = cv
+						} else if scalarCell(cell) {
+							// first load of a cell with unknown content: later loads on this path read the same value
+							// until a store or an invalidating call intervenes (two tests of one flag agree)
+							s.Cell[cell] = x
 						}
 					}
 				}
@@ -985,3 +989,16 @@ func (p *Prog) storeReaches(st *ssa.Store, load ssa.Instruction) bool {
 
 // InstrDominates reports whether a is executed before b on every path reaching b (same function).
 func InstrDominates(a, b ssa.Instruction) bool { return dominatesInstr(a, b) }
+
+// scalarCell: the variable holds a value that cannot be changed piecewise through a derived address.
+func scalarCell(a *ssa.Alloc) bool {
+	pt, ok := a.Type().Underlying().(*types.Pointer)
+	if !ok {
+		return false
+	}
+	switch pt.Elem().Underlying().(type) {
+	case *types.Basic, *types.Pointer, *types.Interface, *types.Chan, *types.Signature:
+		return true
+	}
+	return false
+}
